@@ -338,6 +338,16 @@ func (e *Effects) provenance(v ssa.Value, fn *ssa.Function, depth int, seen map[
 			if f.String() == "google.golang.org/protobuf/proto.Clone" {
 				return []Root{{Fresh, v}}
 			}
+			// what a synchronised container hands out is as shared as the container: an object taken from a
+			// sync.Pool was used by an earlier call and will be used by a later one
+			if org := originOf(f); org.Pkg != nil && org.Pkg.Pkg.Path() == "sync" && org.Signature.Recv() != nil && len(v.Call.Args) >= 1 {
+				switch org.Name() {
+				case "Get", "Load", "LoadOrStore", "LoadAndDelete", "Swap":
+					descended = true
+					out = append(out, rec(v.Call.Args[0])...)
+					continue
+				}
+			}
 			if f.Blocks != nil && load.FuncInRepo(f) && e.depth < 4 {
 				descended = true
 				e.depth++
@@ -423,4 +433,11 @@ func pointerLike(t types.Type) bool {
 		return true
 	}
 	return false
+}
+
+func originOf(f *ssa.Function) *ssa.Function {
+	if o := f.Origin(); o != nil {
+		return o
+	}
+	return f
 }
